@@ -328,7 +328,28 @@ fn main() {
                 }
                 let _ = std::fs::write(&progress, format!("{ci}"));
                 let req: Value = serde_json::from_str(line).unwrap();
-                let mut res = compile(&req);
+                // the compiler may not terminate (that is data for C16): run it on its own
+                // thread, give up after the timeout, record "hang" and leave the process
+                let ms: u64 = std::env::var("VHIST_TIMEOUT_MS").ok().and_then(|x| x.parse().ok()).unwrap_or(30_000);
+                let (tx, rx) = std::sync::mpsc::channel();
+                let req2 = req.clone();
+                std::thread::Builder::new()
+                    .stack_size(64 << 20)
+                    .spawn(move || {
+                        let _ = tx.send(compile(&req2));
+                    })
+                    .unwrap();
+                let mut res = match rx.recv_timeout(std::time::Duration::from_millis(ms)) {
+                    Ok(r) => r,
+                    Err(_) => {
+                        let mut h = json!({"outcome": "hang", "class": "hang",
+                                           "msg": format!("no result after {ms} ms")});
+                        h["id"] = req["id"].clone();
+                        writeln!(out, "{}", h).unwrap();
+                        out.flush().unwrap();
+                        std::process::exit(3);
+                    }
+                };
                 res["id"] = req["id"].clone();
                 if req.get("want_grammar").and_then(|x| x.as_bool()) == Some(true) {
                     let text = std::fs::read_to_string(req["grammar_path"].as_str().unwrap())
